@@ -339,7 +339,16 @@ func scnC18Concurrent(rc *RunCtx) {
 	}
 }
 
+type simInstant struct {
+	at   time.Duration
+	set0 bool
+}
+
+//go:norace
+func (i *simInstant) set(d time.Duration) { i.at, i.set0 = d, true }
+
 type c18Waiter struct {
+	origin      simInstant // when the waiter's task called WaitForReady (its polls are origin + k intervals)
 	name        string
 	cancel      context.CancelFunc
 	startStep   int // -1: before the first step
@@ -387,6 +396,7 @@ func scnC18Wait(rc *RunCtx) {
 		rc.Cleanup(cancel)
 		w.cancel, w.started, w.startedAt = cancel, true, rc.SimNow()
 		rc.Sim.Spawn(w.name, func() {
+			w.origin.set(rc.SimNow())
 			ch := h.WaitForReady(ctx)
 			err, _ := simrt.ChanRecv2(ch, "waiter.recv")
 			w.done.set(err)
@@ -509,6 +519,21 @@ func scnC18Wait(rc *RunCtx) {
 				return
 			}
 			continue
+		}
+		// completed without error although its context had been cancelled before: legitimate only if
+		// a readiness poll was due between the cancellation and the completion (both were ready
+		// then); otherwise the cancellation came first and its error is what the waiter must get
+		if w.cancelled && w.origin.set0 && w.doneAt > w.cancelledAt {
+			pollDue := false
+			for k := time.Duration(1); w.origin.at+k*interval <= w.doneAt; k++ {
+				if at := w.origin.at + k*interval; at > w.cancelledAt-100*time.Millisecond {
+					pollDue = true
+				}
+			}
+			if !pollDue {
+				rc.Fail("C18", "cancelled-wait-completed-without-error", "%s: its context was cancelled at %v, no readiness poll was due until it completed at %v, yet WaitForReady completed without the context's error (steps: %v)", w.name, w.cancelledAt, w.doneAt, desc)
+				return
+			}
 		}
 		// completed without error: the model must have been ready at that instant
 		for _, p := range phases {
